@@ -67,29 +67,30 @@ def transName (sh : Sh) (pc : Pc) (e : Env) : String :=
 
 def cands (s : St) (t : Nat) (ev : Event) : List (Label × St × String) :=
   let pc := s.pcs t
-  if ev.kind == "call" then
-    match envOfCall ev.op with
-    | some e => match step s t e with
-      | some s' => [(label s.sh pc e ev.op, s', transName s.sh pc e)]
-      | none => []
-    | none => []
-  else if ev.kind == "ret" then
-    match pc, envOfCall ev.op with
-    | .done _, some _ => match step s t .go with
-      | some s' => [(label s.sh pc .go ev.op, s', "done")]
-      | none => []
-    | _, _ => []
-  else if ev.kind == "blk" && ev.op == "park_enter" then
-    match pc with
-    | .w5park b => [({ kind := "blk", obj := "tp", inst := bl b, op := "park_enter" }, s, "park_enter")]
-    | _ => []
-  else
-    match pc with
+  -- the model's own next steps (what a divergence report shows as "expected")
+  let normal : List (Label × St × String) := match pc with
     | .idle | .done _ => []
     | _ => (envsFor pc).filterMap fun e =>
       match step s t e with
       | some s' => some (label s.sh pc e "", s', transName s.sh pc e)
       | none => none
+  match ev.kind, pc with
+  | "call", .idle =>
+    match envOfCall ev.op with
+    | some e => match step s t e with
+      | some s' => [(label s.sh pc e ev.op, s', transName s.sh pc e)]
+      | none => []
+    | none => []
+  | "ret", .done _ =>
+    -- the API name on a return must be one of this object's calls; the value is the model's
+    match envOfCall ev.op, step s t .go with
+    | some _, some s' => [(label s.sh pc .go ev.op, s', "done")]
+    | _, _ => []
+  | "blk", .w5park b =>
+    -- park entry is an observation of the state, not a step
+    if ev.op == "park_enter" then [({ kind := "blk", obj := "tp", inst := bl b, op := "park_enter" }, s, "park_enter")]
+    else normal
+  | _, _ => normal
 
 def allIdle (s : St) : Bool := (List.range s.n).all (fun t => s.pcs t == .idle)
 
